@@ -8,7 +8,7 @@ import os
 import re
 
 from vf.extract import match_brace, ExtractError
-from vf.unit import Unit, _find_all, arm_bounds
+from vf.unit import Unit, _find_all, arm_bounds, project_on, uniter_max, unchecked_sub_filter, unok_or_else_q
 
 HERE = os.path.dirname(os.path.abspath(__file__))
 
@@ -234,6 +234,69 @@ def build():
     ])
     u.text('verus! { mod shape_slice { use super::*;')
     u.emit(sh, vis='')
+    u.text('} }')
+
+    # ------------------------------------------------------------------ open_input[batch_mmcs_index]: which index bits the in-circuit MMCS opening of a batch gets (F13)
+    bm = u.extract(V, '', 'open_input', 'open_input[batch_mmcs_index]')
+    slice_loop_body(bm, r'for \(batch_idx, \(\(batch_commit, mats\), batch_openings\)\) in zip_eq\(', 'the per-batch loop of open_input; the projection keeps what decides the index bits of the MMCS opening')
+    project_on(bm, r'if let Some\(perm_config\)', {'log_batch_max_height', 'bits_reduced', 'batch_index_bits', 'verify_batch_circuit', 'verify_batch_circuit_arity4'},
+               'commitment cap packing, dimensions, salts, the arithmetic part of the batch (slices per_matrix_shape_and_grouping / height_group)')
+    # the projected text ends with the (emptied) statements after the MMCS block: cut after the block that holds the MMCS call
+    mo = re.search(r'if let Some\(perm_config\) = permutation_config \{', bm.body)
+    if not mo:
+        raise ExtractError('lost anchor in open_input[batch_mmcs_index]: the MMCS block')
+    o_ = bm.body.index('{', mo.end() - 1)
+    bm.body = '{\n' + bm.body[o_ + 1:match_brace(bm.body, o_)] + '\nOk(op_ids)\n}'
+    bm.rewrites.append(('R13', 'function body := the projected body of `if let Some(perm_config) = permutation_config { .. }`; the slice returns the local `op_ids`', ''))
+    bm.erase_error_messages('VerificationError::InvalidProofShape')
+    bm.rewrite_re('R8', r'\.map_err\(\|e\| \{\s*VerificationError::InvalidProofShape\(errmsg\(\)\)\s*\}\)\?', '?', min_count=0)
+    bm.rewrite_re('R11', r'::<F, EF>\(', '(', min_count=0)
+    uniter_max(bm)
+    unchecked_sub_filter(bm)
+    unok_or_else_q(bm)
+    bm.set_sig('R11', 'fn open_input_batch_mmcs(builder: &mut MmcsBuilder, perm_config: PermCfg, commitment_cap: &CapT, dimensions: &DimsT, mats: &Vec<MatIn>, batch_openings: &Vec<Vec<Target>>, salts_for_batch: Option<&SaltsT>, '
+                      'index_bits: &[Target], log_global_max_height: usize, log_blowup: usize, batch_idx: usize) -> Result<OpIds, VerificationError>', sliced=True)
+    bm.requires('heights_fit', 'forall|k: int| 0 <= k < mats@.len() ==> (#[trigger] mats@[k]).0.log_n + log_blowup < 0x1_0000_0000')
+    bm.ensures('the_batch_is_opened_at_the_index_reduced_to_its_own_height',
+               '''ret matches Ok(ids) ==> mats@.len() > 0 && max_log_height(mats@, log_blowup, mats@.len() as int) <= log_global_max_height
+                    && log_global_max_height - max_log_height(mats@, log_blowup, mats@.len() as int) <= index_bits@.len()
+                    && mmcs_opened_with(ids, index_bits@.subrange(log_global_max_height - max_log_height(mats@, log_blowup, mats@.len() as int), index_bits@.len() as int))''')
+    for mm in re.finditer(r'for (\w+) in 0\.\.mats\.len\(\)', bm.body):
+        k = mm.group(1)
+        acc = re.search(r'let mut (mx\d+_): Option<usize> = None;', bm.body)
+        if acc:
+            a = acc.group(1)
+            bm.loop(mm.group(0), invariants=[
+                ('largest_height_so_far', f'''(forall|j: int| 0 <= j < mats@.len() ==> (#[trigger] mats@[j]).0.log_n + log_blowup < 0x1_0000_0000)
+                    && ({k} == 0 ==> {a} is None) && ({k} > 0 ==> {a} == Some(max_log_height(mats@, log_blowup, {k} as int) as usize))
+                    && 0 <= max_log_height(mats@, log_blowup, {k} as int) < 0x1_0000_0000'''),
+            ])
+            bm.at_loop_end(mm.group(0), f'proof {{ reveal_with_fuel(max_log_height, 2); assert(max_log_height(mats@, log_blowup, {k} + 1) == (if {k} + 1 == 1 || mats@[{k} as int].0.log_n + log_blowup > max_log_height(mats@, log_blowup, {k} as int) {{ mats@[{k} as int].0.log_n + log_blowup }} else {{ max_log_height(mats@, log_blowup, {k} as int) }})); }}')
+        break
+    u.text('''verus! { mod batch_mmcs_index { use super::*;
+pub struct MmcsBuilder { pub _p: () }
+#[derive(Clone, Copy)] pub struct PermCfg { pub arity4: bool }
+impl PermCfg { pub fn is_arity4_shape(&self) -> (r: bool) ensures r == self.arity4 { self.arity4 } }
+pub struct CapT { pub _p: () }
+pub struct DimsT { pub _p: () }
+pub struct SaltsT { pub _p: () }
+pub struct OpIds { pub _p: () }
+/// the largest `log_size + log_blowup` among the first n matrices of the batch
+pub open spec fn max_log_height(mats: Seq<MatIn>, log_blowup: usize, n: int) -> int decreases n {
+    if n <= 0 { 0 } else { let h = mats[n - 1].0.log_n + log_blowup; let m = max_log_height(mats, log_blowup, n - 1); if n == 1 || h > m { h } else { m } }
+}
+/// witness predicate: these op ids were produced by an in-circuit MMCS opening that was handed exactly these index bits
+pub uninterp spec fn mmcs_opened_with(ids: OpIds, bits: Seq<Target>) -> bool;
+#[verifier::external_body]
+pub fn verify_batch_circuit(builder: &mut MmcsBuilder, perm_config: PermCfg, cap: &CapT, dims: &DimsT, index_bits: &[Target], openings: &Vec<Vec<Target>>, salts: Option<&SaltsT>) -> (r: Result<OpIds, VerificationError>)
+    ensures r matches Ok(ids) ==> mmcs_opened_with(ids, index_bits@)
+{ unimplemented!() }
+#[verifier::external_body]
+pub fn verify_batch_circuit_arity4(builder: &mut MmcsBuilder, perm_config: PermCfg, cap: &CapT, dims: &DimsT, index_bits: &[Target], openings: &Vec<Vec<Target>>) -> (r: Result<OpIds, VerificationError>)
+    ensures r matches Ok(ids) ==> mmcs_opened_with(ids, index_bits@)
+{ unimplemented!() }
+''')
+    u.emit(bm, vis='')
     u.text('} }')
 
     # ------------------------------------------------------------------ open_input[height_group]
